@@ -8,6 +8,8 @@ CONSTANTS
   MaxCnt = 2
   R = 3
   G = 2
+  TR = 3
+  TMax = 3
   ColsPer = 2
   Canon = TRUE
   DataSrc = "free"
@@ -16,5 +18,6 @@ NEXT Next
 INVARIANT OrderIndependent
 INVARIANT DataConsistent
 INVARIANT NodeAnswers
+INVARIANT TopNSatisfiable
 INVARIANT Emit
 CHECK_DEADLOCK FALSE
